@@ -57,6 +57,8 @@ impl Exec for BinOperation {
             return or::exec(lhs, &self.rhs, interpreter);
         }
         let rhs = self.rhs.exec(interpreter)?;
+        #[cfg(simplesl_verif)]
+        crate::verif::set_op(self.op);
         Ok(match self.op {
             BinOperator::Add => add::exec(lhs, rhs),
             BinOperator::Subtract => subtract::exec(lhs, rhs),
